@@ -348,7 +348,7 @@ struct CallR {
     size: usize,
 }
 
-fn c08_client(path: &Path, client: u32, script: &[CallR], cuts: &[usize], delay_ms: u64) -> Result<u64, (String, String)> {
+fn c08_client(path: &Path, client: u32, script: &[CallR], cuts: &[usize], delay_ms: u64, half_close: bool) -> Result<u64, (String, String)> {
     let mut cli = Cli::connect(path).map_err(inc)?;
     let mut bytes = Vec::new();
     for (j, c) in script.iter().enumerate() {
@@ -361,6 +361,11 @@ fn c08_client(path: &Path, client: u32, script: &[CallR], cuts: &[usize], delay_
     bytes.extend(call_bytes(&M::Echo { client, seq: sentinel, size: 0 }, false, false));
     for ch in vnet::chunks_at(&bytes, cuts) {
         cli.send(&ch).map_err(inc)?;
+    }
+    // "send everything, say so, then collect the answers": the client shuts down its sending side; the calls
+    // it sent before are still owed their answers
+    if half_close {
+        cli.s.shutdown(std::net::Shutdown::Write).map_err(|e| inc(format!("shutdown: {e}")))?;
     }
     // only now start reading: the answers have been piling up in the socket (or the server is waiting for room)
     if delay_ms > 0 {
@@ -399,6 +404,8 @@ fn c08_client(path: &Path, client: u32, script: &[CallR], cuts: &[usize], delay_
     match cli.frame(Duration::from_millis(30)) {
         Err(RdErr::Timeout) => {}
         Ok(f) => return Err(("C08/real-sockets:more-answers-than-owed".into(), format!("client {client}: extra frame {}", vnet::json::show(&f[..f.len().min(100)])))),
+        // a client that has shut down its sending side is done: the server may close
+        Err(RdErr::Closed) if half_close => {}
         Err(RdErr::Closed) => return Err(("C08/real-sockets:healthy-connection-closed".into(), format!("client {client}: closed by the server after the last answer"))),
         Err(RdErr::Io(e)) => return Err(inc(format!("client {client}: read: {e}"))),
     }
@@ -447,7 +454,8 @@ fn c08_case(kind: Kind, seed: u64, dir: &Path, rep: &mut Report) {
             let total: usize = sc.len() * 90;
             let cuts: Vec<usize> = (0..rng.below(3)).map(|_| rng.range(1, total.max(2))).collect::<std::collections::BTreeSet<_>>().into_iter().collect();
             let delay = *rng.pick(&[0u64, 0, 1, 5, 20]);
-            std::thread::spawn(move || c08_client(&path, i as u32, &sc, &cuts, delay))
+            let half_close = rng.chance(1, 3);
+            std::thread::spawn(move || c08_client(&path, i as u32, &sc, &cuts, delay, half_close))
         })
         .collect();
     let mut outcome: Verdict = Ok(());
